@@ -59,6 +59,8 @@ pub const TARGETS: &[FnTarget] = &[
     FnTarget { file: "vm.rs", owner: Some("ObjStringStore"), name: "get", lean: "store_get", havoc: &[], ignore_cfg_features: &[] },
     FnTarget { file: "vm.rs", owner: Some("ObjStringStore"), name: "adjust_capacity", lean: "store_adjust_capacity", havoc: &[], ignore_cfg_features: &[] },
     FnTarget { file: "vm.rs", owner: Some("ObjStringStore"), name: "insert", lean: "store_insert", havoc: &[], ignore_cfg_features: &[] },
+    FnTarget { file: "vm.rs", owner: Some("Vm"), name: "load_fiber", lean: "vm_load_fiber", havoc: &[], ignore_cfg_features: &[] },
+    FnTarget { file: "vm.rs", owner: Some("Vm"), name: "unload_fiber", lean: "vm_unload_fiber", havoc: &[], ignore_cfg_features: &[] },
 ];
 
 pub struct FnBodies {
@@ -218,6 +220,10 @@ fn translate_one(srcs: &[Src], db: &TypeDb, consts: &BTreeMap<String, i128>, t: 
                     let mut ty = cx.syn_ty(&pt.ty);
                     if compact(&toks(&*pt.ty)) == "fn(f64,f64)->Value" {
                         ty = LT::OpFn;
+                    }
+                    if cx.vm_mode && ty == LT::Struct("ObjFiber".to_string()) {
+                        // a fiber handed to a method of the interpreter: the number that names it
+                        ty = LT::FiberId;
                     }
                     if matches!(ty, LT::Struct(_)) {
                         // an object parameter: its fields are read as places `<param>.<field>` (inputs of the Lean function)
